@@ -1529,28 +1529,28 @@ Definition closing (s s2 : sink) : Prop :=
   waiters s2 = waiters s /\ rxm s2 = rxm s /\ wrb s2 = wrb s /\ swait s2 = swait s /\ chans s2 = chans s /\
   tasks s2 = tasks s /\ srem s2 = srem s /\ crem s2 = crem s /\
   io s2 = (if io s =? 0 then 1 else io s) /\
-  (wire s2 = wire s \/ wire s2 = wire s ++ [W_DISCONNECT; 0]).
+  (wire s2 = wire s \/ exists rc, wire s2 = wire s ++ [W_DISCONNECT; rc]).
 
-Lemma do_close_spec s : exists s2, do_close s = clear_queues s2 /\ closing s s2.
+Lemma do_close_spec s r : exists s2, do_close s r = clear_queues s2 /\ closing s s2.
 Proof.
   unfold do_close, disconnect_sent, io_close, is_closed, enc_packet, add_wire. sk.
   destruct (ver s =? 3).
   - destruct (client s).
     + destruct (disc s); sk.
-      * eexists; split; [reflexivity|]. unfold closing. destruct (io s =? 0); sk; repeat split; auto.
+      * eexists; split; [reflexivity|]. unfold closing. destruct (io s =? 0); sk; repeat split; eauto.
       * destruct (negb (srem s =? 0)); sk.
-        -- eexists; split; [reflexivity|]. unfold closing. destruct (io s =? 0); sk; repeat split; auto.
+        -- eexists; split; [reflexivity|]. unfold closing. destruct (io s =? 0); sk; repeat split; eauto.
         -- destruct (io s =? 0) eqn:E; sk.
-           ++ destruct (negb (crem s =? 0)); sk; eexists; (split; [reflexivity|]); unfold closing; sk; rewrite ?E; sk; repeat split; auto.
-           ++ eexists; split; [reflexivity|]. unfold closing. sk. rewrite E. repeat split; auto.
-    + eexists; split; [reflexivity|]. unfold closing. destruct (io s =? 0); sk; repeat split; auto.
+           ++ destruct (negb (crem s =? 0)); sk; eexists; (split; [reflexivity|]); unfold closing; sk; rewrite ?E; sk; repeat split; eauto.
+           ++ eexists; split; [reflexivity|]. unfold closing. sk. rewrite E. repeat split; eauto.
+    + eexists; split; [reflexivity|]. unfold closing. destruct (io s =? 0); sk; repeat split; eauto.
   - destruct (N.eqb_spec (io s) 2) as [E|E].
-    + exists s. split; auto. unfold closing. rewrite E. cbn. repeat split; auto.
+    + exists s. split; auto. unfold closing. rewrite E. cbn. repeat split; eauto.
     + destruct (disc s); sk.
-      * eexists; split; [reflexivity|]. unfold closing. destruct (io s =? 0); sk; repeat split; auto.
+      * eexists; split; [reflexivity|]. unfold closing. destruct (io s =? 0); sk; repeat split; eauto.
       * destruct (io s =? 0) eqn:E0; sk.
-        -- destruct (negb (crem s =? 0)); sk; eexists; (split; [reflexivity|]); unfold closing; sk; rewrite ?E0; sk; repeat split; auto.
-        -- eexists; split; [reflexivity|]. unfold closing. sk. rewrite E0. repeat split; auto.
+        -- destruct (negb (crem s =? 0)); sk; eexists; (split; [reflexivity|]); unfold closing; sk; rewrite ?E0; sk; repeat split; eauto.
+        -- eexists; split; [reflexivity|]. unfold closing. sk. rewrite E0. repeat split; eauto.
 Qed.
 
 Lemma closing_io s s2 : closing s s2 -> io s2 <> 0.
@@ -1559,9 +1559,9 @@ Proof.
   destruct (N.eqb_spec (io s) 0); [discriminate|auto].
 Qed.
 
-Lemma inv_close ks s : inv ks s -> inv ks (do_close s).
+Lemma inv_close ks s r : inv ks s -> inv ks (do_close s r).
 Proof.
-  intros I. destruct (do_close_spec s) as (s2 & -> & C). pose proof (closing_io _ _ C) as Hio.
+  intros I. destruct (do_close_spec s r) as (s2 & -> & C). pose proof (closing_io _ _ C) as Hio.
   destruct C as (C1&C2&C3&C4&C5&C6&C7&C8&C9&C10&C11&C12&C13&C14&C15).
   rewrite clear_queues_eq. apply inv_closed with s (senders s); sk; auto.
   unfold cleared, senders. now rewrite C4, C6, C9, C10.
@@ -1919,14 +1919,14 @@ Proof.
     destruct H4 as [E|H4]; [injection E as _ E; congruence|]. apply NI1. apply in_map_iff. exists (id, Some c0, 3). auto.
 Qed.
 
-Lemma inv_ack_false ks s k id s1 :
-  inv ks s -> pkt_ack_inner s k id = (s1, false) -> inv ks (do_close s1).
+Lemma inv_ack_false ks s k id s1 r :
+  inv ks s -> pkt_ack_inner s k id = (s1, false) -> inv ks (do_close s1 r).
 Proof.
   intros I. pose proof I as []. unfold pkt_ack_inner.
   destruct (inflight s) as [|[[i tx] tp] rest] eqn:HI.
   { intros E. injection E as <-. now apply inv_close. }
-  assert (M : s1 = drop_tx_opt (set_inflight s rest) tx -> inv ks (do_close s1)).
-  { intros ->. destruct (do_close_spec (drop_tx_opt (set_inflight s rest) tx)) as (s2 & -> & C).
+  assert (M : s1 = drop_tx_opt (set_inflight s rest) tx -> inv ks (do_close s1 r)).
+  { intros ->. destruct (do_close_spec (drop_tx_opt (set_inflight s rest) tx) r) as (s2 & -> & C).
     pose proof (closing_io _ _ C) as Hio2.
     destruct C as (C1&C2&C3&C4&C5&C6&C7&C8&C9&C10&C11&C12&C13&C14&C15).
     rewrite clear_queues_eq.
@@ -2436,9 +2436,9 @@ Proof.
   destruct (tst x); auto; cbv zeta; sk; auto. now rewrite drop_sig_io.
 Qed.
 
-Lemma do_close_iom s : iom s (do_close s).
+Lemma do_close_iom s r : iom s (do_close s r).
 Proof.
-  destruct (do_close_spec s) as (s2 & -> & C). rewrite clear_queues_eq. unfold iom. sk.
+  destruct (do_close_spec s r) as (s2 & -> & C). rewrite clear_queues_eq. unfold iom. sk.
   destruct C as (_&_&_&_&_&_&_&_&_&_&_&_&_&E&_). rewrite E.
   destruct (N.eqb_spec (io s) 0); auto.
 Qed.
@@ -2464,7 +2464,7 @@ Proof.
   destruct (_ && _); [apply iom_refl|]. unfold pkt_ack.
   pose proof (pkt_ack_inner_io s k id) as E. destruct (pkt_ack_inner s k id) as [s1 [|]]; cbn [fst] in E.
   - now left.
-  - destruct (do_close_iom s1) as [H|[[H1 H2]|H]]; unfold iom; rewrite <- E; auto.
+  - destruct (do_close_iom s1 RC_IMPL) as [H|[[H1 H2]|H]]; unfold iom; rewrite <- E; auto.
 Qed.
 
 Lemma iom_trans a b c : iom a b -> iom b c -> iom a c.
